@@ -200,6 +200,9 @@ func (obj SparseConstFloat32Vector) ConstAt(i int) ConstScalar {
   }
 }
 func (obj SparseConstFloat32Vector) ConstSlice(i, j int) ConstVector {
+  if i < 0 || j > obj.n || i > j {
+    panic(fmt.Errorf("slice [%d:%d] out of bounds for vector of dimension %d", i, j, obj.n))
+  }
   if i == 0 {
     k1 := 0
     k2 := sort.SearchInts(obj.indices, j)
